@@ -971,6 +971,24 @@ func ruleCloseOnce(c *Ctx, rule string) {
 			continue
 		}
 		c.onceGuardedByFlag(rule, key, pt, flag, locks[0])
+		// ... for EVERY outcome: the start of the emit does not depend on what the error is (a stream finished with
+		// context.Canceled by the handler's own doing still owes the client its close frame)
+		onOutcome := ""
+		for _, f := range factsAt(pt) {
+			x, op, y, isCmp := cmpFact(f)
+			if !isCmp {
+				continue
+			}
+			if (isErrorType(x.Type()) || isErrorType(y.Type())) && !(isNilConst(x) || isNilConst(y)) {
+				onOutcome = desc(x) + " " + op.String() + " " + desc(y)
+			}
+		}
+		for _, bf := range boolFactsAt(pt) {
+			if call, isC := bf.V.(*ssa.Call); isC && (calleeName(call) == "errors.Is" || calleeName(call) == "errors.As") {
+				onOutcome = calleeName(call) + "(…) == " + fmt.Sprint(bf.True)
+			}
+		}
+		c.check(onOutcome == "", rule, emitKey(w, e)+": emitted whatever the outcome", w.At(pt), "not conditional on the error", "the close_stream emit is started only when "+onOutcome+": for the other outcomes the server finishes the RPC without telling the client, which keeps its table entry, its watcher goroutine and a blocked reader until its own context ends")
 		// inside the closure the close emit is unconditional
 		if w.isSubordinate(e.Fn) {
 			c.check(pathAvoiding(e.Fn, nil, isExit, func(in ssa.Instruction) bool { return in == e.Send }) == nil, rule, emitKey(w, e)+": unconditional inside the goroutine", w.At(e.Send), "every path of the goroutine sends close_stream", "a path through the finish goroutine skips the close_stream emit")
